@@ -256,4 +256,100 @@ theorem progress (rank : Lock → Nat) (s : Sys) (hg : Good rank s) :
     have := wr_le_max rank s u hu
     omega
 
+/-! ### soundness of the interleaving search `explore` (what the driver answers with) -/
+
+/-- reachable from `s0` by some schedule -/
+def Reach (s0 s : Sys) : Prop := ∃ sched, runSched s0 sched = some s
+
+theorem runSched_snoc (s0 s s' : Sys) (sched : List Nat) (i : Nat)
+    (h : runSched s0 sched = some s) (hs : stepAt s i = some s') :
+    runSched s0 (sched ++ [i]) = some s' := by
+  induction sched generalizing s0 with
+  | nil =>
+    simp only [runSched, Option.some.injEq] at h
+    subst h
+    simp [runSched, hs]
+  | cons j js ih =>
+    simp only [runSched] at h
+    cases hj : stepAt s0 j with
+    | none => simp [hj] at h
+    | some s1 =>
+      simp only [hj] at h
+      simp only [List.cons_append, runSched, hj]
+      exact ih s1 h
+
+theorem reach_refl (s0 : Sys) : Reach s0 s0 := ⟨[], rfl⟩
+
+theorem reach_step (s0 s s' : Sys) (i : Nat) (h : Reach s0 s) (hs : stepAt s i = some s') :
+    Reach s0 s' := by
+  obtain ⟨sched, hr⟩ := h
+  exact ⟨sched ++ [i], runSched_snoc s0 s s' sched i hr hs⟩
+
+theorem mem_successors (s s' : Sys) (h : s' ∈ successors s) : ∃ i, stepAt s i = some s' := by
+  unfold successors at h
+  obtain ⟨i, _, hi⟩ := List.mem_filterMap.mp h
+  exact ⟨i, hi⟩
+
+/-- Every deadlock the search reports is a state that some schedule really reaches. -/
+theorem explore_sound (s0 : Sys) :
+    ∀ (fuel : Nat) (work : List Sys) (seen : List (List Nat)),
+      (∀ s ∈ work, Reach s0 s) → explore fuel work seen = true →
+      ∃ s, Reach s0 s ∧ deadlocked s = true := by
+  intro fuel
+  induction fuel with
+  | zero => intro work seen _ h; simp [explore] at h
+  | succ fuel ih =>
+    intro work seen hw h
+    cases work with
+    | nil => simp [explore] at h
+    | cons s rest =>
+      simp only [explore] at h
+      have hrest : ∀ x ∈ rest, Reach s0 x := fun x hx => hw x (List.mem_cons_of_mem _ hx)
+      have hs : Reach s0 s := hw s (List.mem_cons_self ..)
+      split at h
+      · exact ih rest seen hrest h
+      · split at h
+        · rename_i hd
+          exact ⟨s, hs, hd⟩
+        · apply ih (successors s ++ rest) (key s :: seen) _ h
+          intro x hx
+          rcases List.mem_append.mp hx with hx | hx
+          · obtain ⟨i, hi⟩ := mem_successors s x hx
+            exact reach_step s0 s x i hs hi
+          · exact hrest x hx
+
+theorem allDone_iff (s : Sys) : allDone s = true ↔ ∀ th ∈ s, th.prog = [] := by
+  simp [allDone, List.isEmpty_iff]
+
+theorem successors_nil (s : Sys) (h : (successors s).isEmpty = true) : ∀ i, stepAt s i = none := by
+  intro i
+  cases hs : stepAt s i with
+  | none => rfl
+  | some s' =>
+    have hi : i < s.length := by
+      unfold stepAt at hs
+      cases hg : s[i]? with
+      | none => simp [hg] at hs
+      | some th =>
+        have := List.getElem?_eq_some_iff.mp hg
+        exact this.1
+    have : s' ∈ successors s := by
+      unfold successors
+      exact List.mem_filterMap.mpr ⟨i, List.mem_range.mpr hi, hs⟩
+    have hne : successors s ≠ [] := List.ne_nil_of_mem this
+    simp [List.isEmpty_iff] at h
+    exact absurd h hne
+
+/-- `deadlocked` (the Boolean the search tests) is the Prop-level deadlock: somebody is unfinished
+    and nobody can perform his next lock operation. -/
+theorem deadlocked_spec (s : Sys) (h : deadlocked s = true) :
+    (¬ ∀ th ∈ s, th.prog = []) ∧ ∀ i, stepAt s i = none := by
+  unfold deadlocked at h
+  simp only [Bool.and_eq_true, Bool.not_eq_true'] at h
+  refine ⟨?_, successors_nil s h.2⟩
+  intro hall
+  have := (allDone_iff s).mpr hall
+  rw [this] at h
+  simp at h
+
 end GluonModel.ParLocks.Proofs
